@@ -419,6 +419,25 @@ def main(tier, seed):
                     pass
             finally:
                 _tempfile.tempdir = old_tmp
+    # the access-mode gates with the interpreter started as `python -O` (assert statements stripped): writes on a read-only database and reads
+    # on an append-only one must still raise and leave the file and both directories as they were
+    import shutil as _shutil
+    odir = ck.work / "optimized"
+    _shutil.rmtree(odir, ignore_errors=True)
+    odir.mkdir(parents=True)
+    rc_o, out_o = sh([PY, "-O", str(VERIF / "harness" / "c15_optimized.py"), str(odir)], env=impl_env(), timeout=300)
+    _shutil.rmtree(odir, ignore_errors=True)
+    try:
+        found_o = json.loads([l for l in out_o.splitlines() if l.startswith("[")][-1])
+    except Exception:  # noqa
+        found_o = [{"operation": "python -O child", "raised": f"the child did not finish: {out_o[-300:]}"}]
+    stats["python_O_gate_findings"] = len(found_o)
+    for x in found_o[:2]:
+        if len(direct_bad) < 6:
+            direct_bad.append({"kind": "failing-input", "operation_kind": f"{x.get('operation')} under python -O", "access_mode": x.get("access_mode"), "auto_index": x.get("auto_index"),
+                               "why": ("a write on a database opened read-only (or a read on an append-only one) did not raise" if x.get("raised") is None else
+                                       f"the call raised {x.get('raised')} but the file or the directories changed") + " when the interpreter runs with -O",
+                               "detail": x, "all": [f"{y.get('access_mode')}/{y.get('operation')}" for y in found_o]})
     # tie: the model's plan for the operation is a pure plan exactly for the pure kinds, the completed script leaves a clean
     # world, and its disk is what the file decodes to
     f = ck.work / "cases_c15.v"
